@@ -525,14 +525,13 @@ def run(ctx):
                  len(pcs), time.time() - t0))
     # binding self-test: a wrong expectation must be noticed
     good = [(ps[i], outs[i]) for i in range(len(ps)) if not judge(outs[i], ps[i][3], ps[i][0]) and ps[i][3]['toChild']]
-    if not good:
-        raise tlc.TLCError('self-test: no passing path with keystrokes delivered')
-    (init, iters, by_exit, fin), out = good[0]
-    wrong = dict(fin)
-    wrong['toChild'] = fin['toChild'][:-1]
-    if not judge(out, wrong, init):
-        raise tlc.TLCError('self-test: a wrong expectation was not noticed')
-    ctx.note('binding self-test: an expected toChild shortened by one byte is rejected')
+    if common.selftest_possible(ctx, good, 'keystrokes delivered'):
+        (init, iters, by_exit, fin), out = good[0]
+        wrong = dict(fin)
+        wrong['toChild'] = fin['toChild'][:-1]
+        if not judge(out, wrong, init):
+            raise tlc.TLCError('self-test: a wrong expectation was not noticed')
+        ctx.note('binding self-test: an expected toChild shortened by one byte is rejected')
     status, nviol, nknown = common.conclude(ctx)
     evidence.write('C15', ctx.tier, ctx.seed, 'model_checking', {
         'states': res['distinct'], 'transitions': g.n_edges(), 'traces_validated_against_impl': len(jobs),
